@@ -40,6 +40,12 @@ def cases(draw):
             docs[u] = draw(st.sampled_from([{}, {}, True, False] if d >= 6 else [{}]))
         behaviour[u] = {"mode": draw(st.sampled_from(["ok", "ok", "fail-once", "fail-always"])),
                         "exc": draw(st.sampled_from(sorted(EXC)))}
+    us = sorted(docs)
+    for i, u in enumerate(us):
+        # a reference from inside one retrieved document to the next one: a failure can now strike while the
+        # first document's scope is in force
+        if len(us) >= 2 and isinstance(docs[u], dict) and "definitions" in docs[u] and draw(st.booleans()):
+            docs[u]["definitions"]["r"] = {"$ref": us[(i + 1) % len(us)] + "#/definitions/a"}
     store_doc = draw(st.sampled_from([None, None, STORED[0], STORED[0], STORED[1]]))
     if store_doc:
         docs[store_doc] = {"definitions": {"a": draw(leaf), "": draw(leaf)}}
@@ -47,7 +53,7 @@ def cases(draw):
     spellings = []
     for u in urls:
         spellings += [u, u + "#", u + "#/definitions/a", u + "#/definitions/b", u + "#/definitions/x~1y",
-                      u + "#/definitions/x%7E1y", u + "#/definitions/nope", u + "#/definitions/"]
+                      u + "#/definitions/x%7E1y", u + "#/definitions/nope", u + "#/definitions/", u + "#/definitions/r"]
     schemas = []
     for _ in range(draw(st.integers(1, 3))):
         refs = draw(st.lists(st.sampled_from(spellings), min_size=1, max_size=4))
@@ -76,7 +82,7 @@ def cases(draw):
         else:
             steps.append(["validate", draw(st.integers(0, 2)), draw(st.integers(0, 3))])
     return {"draft": d, "docs": docs, "behaviour": behaviour, "stored": [store_doc] if store_doc else [],
-            "stored_hash": draw(st.booleans()), "schemas": schemas, "instances": insts, "steps": steps}
+            "stored_hash": draw(st.booleans()), "stored_upper_scheme": draw(st.integers(0, 3)) == 0, "schemas": schemas, "instances": insts, "steps": steps}
 
 
 class CountingHandler(object):
@@ -109,7 +115,13 @@ def make_member(case, schema, cache_remote, caches):
     d = case["draft"]
     cls = impl.CLS[d]
     h = CountingHandler(case, None)
-    store = dict((u + ("#" if case.get("stored_hash") else ""), copy.deepcopy(case["docs"][u])) for u in case["stored"])
+    def key(u):
+        # spellings of one and the same URI that the store's key normalisation makes equal: a trailing empty
+        # fragment, the scheme in capitals
+        if case.get("stored_upper_scheme") and u.startswith("http://"):
+            u = "HTTP://" + u[len("http://"):]
+        return u + ("#" if case.get("stored_hash") else "")
+    store = dict((key(u), copy.deepcopy(case["docs"][u])) for u in case["stored"])
     kw = {}
     RefResolver = impl.validators.RefResolver
     root = copy.deepcopy(schema)
@@ -150,7 +162,7 @@ class C15(Prop):
             "Non-trivial: a document used through >= 2 distinct URL strings over >= 2 validations.")
     ASSUMPTIONS = ["members are compared by outcome (errors / exception type); when a fail-once handler makes members "
                    "diverge legitimately (different fetch counts), the comparison is against the per-member model"]
-    GATES = {"multi-spelling": 100, "meta-ref": 100, "handler-failure": 100, "stored-doc": 50}
+    GATES = {"multi-spelling": 100, "meta-ref": 100, "handler-failure": 100, "stored-doc": 50, "reference-verdict": 1000}
     MIN_NONTRIVIAL = 100
 
     def strategy(self, tier):
@@ -182,6 +194,53 @@ class C15(Prop):
         except optr.PointerError:
             return ("RefResolutionError",)
         return ("ok", url, impl.cj(target))
+
+    def reference_verdict(self, case, res, schema, x, out, name, n, step):
+        """Transparency against an independent evaluator: when no retrieval failed during this step, the verdict
+        is the one O-SPEC gives with every document at hand; and if every reference of the schema designates
+        something (statically, transitively) and no document is permanently down, nothing may be unresolvable."""
+        from ..oracle import pointer as optr, spec
+        d = case["draft"]
+        docs = dict(GW.meta_docs())
+        docs.update(case["docs"])
+        docs[""] = schema
+        if out[0] == "ok":
+            ctx = spec.Ctx(d, resolver=spec.WorldResolver(docs))
+            try:
+                want = spec.valid(ctx, schema, x, "")
+            except (spec.Unsupported, spec.Unresolvable, RecursionError, optr.PointerError):
+                return
+            if ctx.inexact:
+                return
+            res.labels.append("reference-verdict")
+            if want != (not out[1]):
+                res.fail(("verdict-differs-from-reference", name, "impl-accepts" if not out[1] else "impl-rejects"),
+                         "step %d %r (history %r): O-SPEC with every document at hand says %s, member reports %d errors" % (
+                             n, step, case["steps"][:n], "valid" if want else "invalid", len(out[1])))
+            return
+        if out[0] != "RefResolutionError" or any(b["mode"] == "fail-always" for b in case["behaviour"].values()):
+            return
+        todo = [v["$ref"] for v in schema["properties"].values()] + ([schema["items"]["$ref"]] if "items" in schema else []) \
+            + [v["$ref"] for v in (schema.get("definitions") or {}).values()]
+        seen = set()
+        while todo:
+            r = todo.pop()
+            if r in seen:
+                continue
+            seen.add(r)
+            u, _, frag = r.partition("#")
+            doc = docs.get(u)
+            if doc is None:
+                return
+            try:
+                t = optr.evaluate(doc, optr.decode_fragment(frag))
+            except optr.PointerError:
+                return              # something designates nothing: an unresolvable reference is legitimate
+            if isinstance(t, dict) and isinstance(t.get("$ref"), str):
+                todo.append(t["$ref"] if not t["$ref"].startswith("#") else u + t["$ref"])
+        res.fail(("unresolvable-although-everything-resolves", name),
+                 "step %d %r (history %r): RefResolutionError, but no retrieval failed in this step, no document is "
+                 "permanently down and every reference designates something" % (n, step, case["steps"][:n]))
 
     def check(self, case):
         res = Result()
@@ -274,6 +333,10 @@ class C15(Prop):
                     return res
                 new = m["handler"].calls[before:]
                 failed_now = any(c[1] != "ok" for c in new)
+                if step[0] == "validate" and not failed_now:
+                    self.reference_verdict(case, res, schemas[j], x, out, name, n, step)
+                    if res.failures:
+                        return res
                 if any(c[1] == "unknown" for c in new):
                     res.fail(("handler-asked-for-a-uri-nothing-names", name), "step %d %r: handler called with %r" % (
                         n, step, [c[0] for c in new if c[1] == "unknown"][:3]))
